@@ -184,7 +184,9 @@ func cmdReplay(args []string) {
 func replayOnce(v *Violation) ([]mismatch, string) {
 	c := ctxFor(v.Engine, v.Workload)
 	cfg := v.Sched
-	cfg.Generative = false
+	if len(cfg.Tape) > 0 || v.SchedName != "cold-process-random" {
+		cfg.Generative = false
+	}
 	mm, st, _ := c.check(cfg)
 	var out []mismatch
 	for _, x := range mm {
